@@ -1,6 +1,7 @@
 package scen
 
 import (
+	"strings"
 	"fmt"
 	"math/big"
 	"runtime"
@@ -26,7 +27,7 @@ type c11Case struct {
 	Dec      uint64
 	RateIdx  int
 	HoldIdx  int // index into holder values
-	HoldWho  int // 0 nobody holds, 1 sender holds, 2 recipient holds, 3 both hold (recipient: HoldIdx2)
+	HoldWho  int // 0 nobody holds, 1 sender holds, 2 recipient holds, 3 both hold (recipient: HoldIdx2), 4 only unrelated accounts hold (the zero / burn address and a stranger)
 	HoldIdx2 int
 	BalMode  int // 0 exact, 1 exact-1, 2 zero, 3 unknown denom
 	DepKind  int // 0 SendToHubEvent, 1 TransferToChainEvent->hub, 2 TransferToChainEvent->bsc (onward transfer scheduled)
@@ -74,6 +75,10 @@ func c11Run(in *hub.Instance, cs c11Case) c11Res {
 	case 3:
 		g.Oracle.Holders = &oracletypes.Holders{List: []*oracletypes.Holder{{Address: user.String(), Value: sdk.NewIntFromBigInt(hv)},
 			{Address: rcpt[2:], Value: sdk.NewIntFromBigInt(c11HolderValues()[cs.HoldIdx2])}}}
+	case 4:
+		g.Oracle.Holders = &oracletypes.Holders{List: []*oracletypes.Holder{{Address: strings.Repeat("0", 40), Value: sdk.NewIntFromBigInt(hv)},
+			{Address: "0x" + strings.Repeat("0", 40), Value: sdk.NewIntFromBigInt(hv)}, {Address: hub.HexAddr("stranger")[2:], Value: sdk.NewIntFromBigInt(hv)},
+			{Address: "", Value: sdk.NewIntFromBigInt(hv)}}}
 	}
 	in.InitGenesis(g)
 	ctx := in.Ctx()
@@ -182,7 +187,7 @@ func c11Run(in *hub.Instance, cs c11Case) c11Res {
 	if e.Fee.Amount.BigInt().Cmp(toExt(cs.Fee)) != 0 {
 		return bad("recorded_fee_not_exact", "createSendToExternal", "recorded fee %s, fee converts to %s", e.Fee.Amount, toExt(cs.Fee))
 	}
-	if cs.HoldWho == 0 || hv.Sign() == 0 {
+	if cs.HoldWho == 0 || cs.HoldWho == 4 || hv.Sign() == 0 {
 		wantAmt := toExt(new(big.Int).Sub(cs.Amount, maxCi))
 		if comExt.Cmp(toExt(maxCi)) != 0 {
 			return bad("commission_not_rate_times_total", "SendToExternal", "no holder discount applies: recorded commission %s, expected %s", comExt, toExt(maxCi))
@@ -333,6 +338,14 @@ func c11Cases(tier string) []c11Case {
 			}
 			for who := 1; who <= 2; who++ {
 				out = append(out, c11Case{Kind: "send", Amount: e18, Fee: big.NewInt(100), Dec: d, RateIdx: 2, HoldIdx: i, HoldWho: who})
+			}
+		}
+	}
+	// only unrelated accounts hold (the burn address in three spellings, a stranger): the sender pays the configured rate
+	for _, d := range []uint64{6, 18} {
+		for ri := range c11Rates {
+			for _, hi := range []int{len(c11HolderValues()) - 1, 6} {
+				out = append(out, c11Case{Kind: "send", Amount: e18, Fee: big.NewInt(100), Dec: d, RateIdx: ri, HoldIdx: hi, HoldWho: 4})
 			}
 		}
 	}
